@@ -346,6 +346,25 @@ fn run_server(chunk_cfg: u32, pieces: &[&[u8]]) -> Vec<String> {
     }
     tr
 }
+// the same with an application that answers NOTHING while input is being delivered (requests are accepted after the last piece):
+// then what a call returns may not depend on where the call boundaries fall even when further messages follow a request
+fn run_server_deferred(chunk_cfg: u32, pieces: &[&[u8]]) -> Vec<String> {
+    let mut tr = vec![];
+    let mut cfg = ServerSessionConfig::new(); cfg.chunk_size = chunk_cfg;
+    let (mut sess, init) = match guard("ServerSession::new", || ServerSession::new(cfg)) { Ok(Ok(x)) => x, Ok(Err(e)) => { tr.push(format!("ERR new: {}", e)); return tr } Err(e) => { tr.push(e); return tr } };
+    let mut dec = OutDec::new(); let mut pending: Vec<u32> = vec![];
+    let mut all: Vec<ServerSessionResult> = init;
+    for p in pieces {
+        match guard("ServerSession::handle_input", || sess.handle_input(p)) { Err(e) => { tr.push(e); return tr } Ok(Err(e)) => { tr.push(format!("ERR {}", e)); return tr } Ok(Ok(v)) => all.extend(v) }
+    }
+    for r in all { match r {
+        ServerSessionResult::OutboundResponse(p) => match dec.feed(&p.bytes) { Ok(v) => for x in v { if !x.is_ack() { tr.push(format!("OUT {}", x.kind())); } }, Err(e) => { tr.push(format!("UNDECODABLE {}", e)); return tr } },
+        ServerSessionResult::RaisedEvent(e) => { if let Some(id) = sreq_id(&e) { pending.push(id); } tr.push(format!("EV {}", sev(&e))); }
+        ServerSessionResult::UnhandleableMessageReceived(p) => tr.push(format!("UNH type={} msid={} ts={} len={} sum={:x}", p.type_id, p.message_stream_id, p.timestamp.value, p.data.len(), sum(&p.data))),
+    } }
+    tr.push(format!("PENDING {:?}", pending));
+    tr
+}
 fn run_client(chunk_cfg: u32, publish: bool, pieces: &[&[u8]]) -> Vec<String> {
     let mut tr = vec![];
     let mut cfg = ClientSessionConfig::new(); cfg.chunk_size = chunk_cfg;
@@ -422,6 +441,17 @@ fn media_run(p: &mut Peer, msid: u32, seg: &mut Vec<u8>) {
     }
 }
 fn mode_c15(seed: u64) {
+    // d/ messages FOLLOWING a request in the same call (an application that answers only after all input was delivered): a ping, an
+    // unknown command, an acknowledgement and a createStream behind connect / behind publish - none of them may wait for another call
+    {
+        let mut p = Peer::new();
+        let mut s1 = p.cmd("connect", 1.0, connect_obj("live", false), &[], 0);
+        s1.extend(p.ping(77)); s1.extend(p.cmd("releaseStream", 2.0, A::Null, &[s("k")], 0)); s1.extend(p.ack(5)); s1.extend(p.cmd("createStream", 3.0, A::Null, &[], 0));
+        let mut s2 = p.cmd("publish", 0.0, A::Null, &[s("k"), s("live")], 1);
+        s2.extend(p.ping(78)); s2.extend(p.cmd("FCPublish", 4.0, A::Null, &[s("k")], 0)); s2.extend(p.audio(1, 5, payload(40, 3))); s2.extend(p.cmd("play", 0.0, A::Null, &[s("k2")], 1)); s2.extend(p.ping(79));
+        check_partitions("d/server messages behind a request in the same call, application answers after all input was delivered", &[s1, s2], seed, &["ConnectionRequested", "ping"], &|pc| run_server_deferred(4096, pc));
+    }
+
     // (a) SetChunkSize(n) followed by a message longer than the old chunk size
     for &n in &[129u32, 4096] {
         for &with_ack in &[false, true] {
